@@ -1,5 +1,5 @@
 _c09_common = dict(harness="C09_rotation.cpp", entries=["harness_c09"], units=CORE, unwind=26, object_bits=13, witness_any=True, checks="none",
-                   timeout={"quick": 900, "thorough": 2400}, mem_gb=6)
+                   timeout={"quick": 900, "thorough": 2400}, mem_gb=3)
 def _none(bases, modes):
     return [{0: b, 1: md, 2: OP_NONE, 3: 0} for b in bases for md in modes]
 PROPS["C09"] = dict(
